@@ -160,6 +160,12 @@ def _exprs(tier):
     for c in (0, 1, 2, 3, 256, B - 1):
         yield "spec", ("EXP", C(c), X)
         yield "spec", ("EXP", X, C(c))
+    # every binary operation applied to a power of two written as a shift / exponentiation of a variable amount
+    # (signed and unsigned twins of each strength-reduction rule)
+    for inner in (("SHL", Y, C(1)), ("SHR", Y, C(1 << 255)), ("SAR", Y, C(1 << 255)), ("EXP", C(2), Y), ("SHL", Y, C(2))):
+        for op in BIN:
+            yield "spec", (op, X, inner)
+            yield "spec", (op, inner, X)
     for sh in ("SHL", "SHR", "SAR"):
         for one in (C(1), C(2), C(0)):
             yield "spec", ("MUL", X, (sh, Y, one))
